@@ -161,6 +161,25 @@ impl World {
         w
     }
 
+    /// The chain spread over two blk files so that the height order keeps leaving a file and coming back to it for the
+    /// block stored directly behind the one read there last (what a late block at a file roll-over produces):
+    /// height i goes to file [0,1,0,0,1,1,0,1][i % 8].
+    pub fn interleaved(coin: &'static Coin, chain: &[Block], first_height: u64) -> World {
+        let mut w = World::new(coin);
+        for (i, b) in chain.iter().enumerate() {
+            w.add_block([0u64, 1, 0, 0, 1, 1, 0, 1][i % 8], first_height + i as u64, b);
+        }
+        w
+    }
+    /// `variant` even: everything in blk00000.dat; odd: the interleaved two-file layout.
+    pub fn laid_out(coin: &'static Coin, chain: &[Block], first_height: u64, variant: usize) -> World {
+        if variant % 2 == 0 {
+            World::simple(coin, chain, first_height)
+        } else {
+            World::interleaved(coin, chain, first_height)
+        }
+    }
+
     /// Canonical description (content-addressed identity and replay payload).
     pub fn describe(&self) -> serde_json::Value {
         use serde_json::json;
